@@ -19,6 +19,11 @@ def build(exp_dir, index_path, crate_dir, target_dir):
     for e in index:
         k = e["k"]
         m = "crate::d%d" % k
+        if e.get("probe_types"):
+            # extra definitions (groups, wrapped returns): concrete instantiations named by the renderer
+            lines.append("    pub mod p%d {\n        use super::*;\n        extern \"C\" {\n%s        }\n    }" % (
+                k, "".join("            pub fn probe_x%d(o: %s);\n" % (i, t) for i, t in enumerate(e["probe_types"]))))
+            continue
         # a trait with an unwrapped associated type: vtable and aliases are generic over it (instantiated with u64)
         ga = ", u64" if (e.get("d") or {}).get("arg") in ("aval", "aref", "aslice", "aopt", "ares") else ""
         lines.append("    pub mod p%d {\n        use super::*;\n        type ContB = CGlueObjContainer<CBox<'static, c_void>, NoContext, %s::TRetTmp<NoContext%s>>;\n"
